@@ -495,6 +495,29 @@ def run_replay_conc(hcmd, ops, timeout=120, env=None):
         sched = next((l[len("schedule "):] for l in a["out"] if l.startswith("schedule ")), "")
         ops = [("sched replay " + sched) if l.startswith("sched prefix ") else l for l in ops2]
         a = run_one(hcmd, ops, timeout=timeout, env=env)
+    end = next((l for l in a["out"] if l.startswith("end ")), "")
+    if not a["crash"] and (end.startswith("end replay-diverged") or end.startswith("end step-limit")):
+        # A schedule recorded on a tree where some thread slept for ever ends in a long tail in which only
+        # the retrying threads run. On a tree where that thread is awake the same tokens are merely an
+        # unfair schedule (it fits, and starves the thread up to the step limit). Keep the part before
+        # that tail (plus a few rounds of it) and let the scheduler continue fairly from there.
+        line = next((l for l in ops if l.startswith("sched replay ")), None)
+        if line:
+            toks = line.split()[2:]
+            k = len(toks)
+            tail_set = set()
+            while k > 0 and len(tail_set | {toks[k - 1].rstrip("!~")}) <= 2:
+                tail_set.add(toks[k - 1].rstrip("!~"))
+                k -= 1
+            if len(toks) - k > 200:
+                cut = toks[:k + 60]
+                ops3 = [("sched prefix " + " ".join(cut)) if l.startswith("sched replay ") else l for l in ops]
+                b = run_one(hcmd, ops3, timeout=timeout, env=env)
+                sched = next((l[len("schedule "):] for l in b["out"] if l.startswith("schedule ")), "")
+                ops4 = [("sched replay " + sched) if l.startswith("sched prefix ") else l for l in ops3]
+                c = run_one(hcmd, ops4, timeout=timeout, env=env)
+                if not c["crash"] and any(l.startswith("end ok") for l in c["out"]):
+                    return c, ops4
     return a, ops
 
 
@@ -1040,9 +1063,11 @@ def conc_correspondence(ctx, harness_cmd, driver_cmd, runs, judge=None, label="t
         if sig is not None and sig in sigs:
             continue
         sigs.add(sig)
+        # (a run that crashed printed no schedule: its replay is the scheduling policy and seed it ran with)
         p = ctx.violation({"kind": "property-fails-on-implementation", "tie": label,
                            "conf": runs[i]["conf"], "schedule": sched, "what": msg,
-                           "ops": runs[i]["conf"] + ["sched replay " + sched, "run"],
+                           "ops": runs[i]["conf"] + ["sched " + (("replay " + sched) if sched or not a["crash"]
+                                                                   else runs[i]["sched"]), "run"],
                            "implementation_trace": a["out"], "impl_crash": a["crash"],
                            "model_trace": model[i]["out"], "broken_obligations": ctx.broken},
                           found_input=True, signature=sig)
